@@ -1,12 +1,13 @@
 #!/bin/bash
 # usage: tools/seedmatrix.sh <seeded-dir> [tier]   -> prints "<id> <check>=<rc> ..." : every check run against one seeded change
+here=$(cd "$(dirname "$0")/.." && pwd)
 d=$(realpath "$1"); tier=${2:-quick}; id=$(basename $d)
 wt=$(mktemp -d /tmp/seedmx-XXXXXX); rmdir $wt
 git -C /repo worktree add -q --detach $wt HEAD || exit 3
 trap 'git -C /repo worktree remove --force $wt >/dev/null 2>&1; rm -rf $wt' EXIT
 git -C $wt apply "$d/patch.diff" || { echo "$id PATCH-DOES-NOT-APPLY"; exit 3; }
 line="$id"
-cd /verif
+cd "$here"
 for p in C01 C02 C03 C04 C05 C06 C07 C08 C09 C10 C11 C12 C13 C14 C15 C16 C17 C18 C19 C20; do
   VERIF_REPO=$wt ./check $p $tier >/dev/null 2>&1; line="$line $p=$?"
 done
